@@ -4,7 +4,8 @@ import c18
 
 PROP = 'C12'
 BUILDS = ['safe']
-EXTRA_THEOREM_MODULES = ['DcVerif.Props.C12Graph']
+TRANSLATORS = ['containers', 'collections', 'causable']   # Gen/Containers.lean (the adapters) + the default methods they feed
+EXTRA_THEOREM_MODULES = ['DcVerif.Props.C12Graph', 'DcVerif.Props.C12Gen']
 RULE = ('five families, each item list held in [T], Vec, VecDeque (ring buffer wrapped), BTreeMap, HashMap and a rebuilt twin Vec: '
         'assumptions (0–8, verify / verify_all histories of 1–12 calls, full dump of all six after every call), inferences and '
         'observations (0–10, value generators of C18: thresholds, ±0.0, NaN, truncation edges), causaloid collections (1–7 members, '
